@@ -93,11 +93,14 @@ pub fn scenarios(tier: Tier) -> Vec<Scenario> {
         }
         Tier::Thorough => {
             for subs in 0..=3u8 {
-                add(1, 3, 1, 2, subs, 3);
-                add(1, 2, 2, 1, subs, 3);
-                add(2, 2, 1, 2, subs, 2);
-                add(1, 2, 2, 2, subs, 2);
+                let chan = subs & 2 != 0;
+                add(1, 3, 1, 2, subs, if chan { 2 } else { 3 });
+                add(1, 2, 2, 1, subs, if chan { 2 } else { 3 });
+                add(2, 2, 1, 2, subs, if chan { 1 } else { 2 });
+                add(1, 2, 2, 2, subs, if chan { 1 } else { 2 });
+                add(1, 2, 1, 1, subs, 3);
             }
+            add(2, 3, 1, 1, 1, 3);
         }
     }
     v
